@@ -81,7 +81,7 @@ def generate(rng, tier):
     ops.sort(key=lambda o: o["t"])
     faults = {"max_delay_us": rng.choice([0, 1000, 100000]), "loop_delay_us": rng.choice([0, 1000]),
               "dup_p": rng.choice([0.0, 0.1])}
-    return {"ops": ops, "faults": faults, "end": horizon, "browsers": browsers}
+    return {"timer_slop_us": rng.choice([0, 0, 1, 50, 300]), "ops": ops, "faults": faults, "end": horizon, "browsers": browsers}
 
 
 def _ptr(t, ty, name, ttl):
@@ -91,7 +91,8 @@ def _ptr(t, ty, name, ttl):
 
 def execute(scenario, seed, overrides=None):
     out = runner.Outcome()
-    w = World(seed, FaultConfig(**scenario.get("faults", {})), overrides)
+    w = World(seed, FaultConfig(**scenario.get("faults", {})), overrides,
+              timer_slop=scenario.get("timer_slop_us", 0) / 1e6)
     try:
         drv = Driver(w, scenario)
         model = {}
